@@ -108,3 +108,56 @@ def sized_binary(max_size, min_size=0):
         st.binary(min_size=min_size, max_size=max_size),
         st.integers(min_size, max_size).flatmap(lambda n: st.binary(min_size=n, max_size=n)),
     )
+
+
+_P = 2**256 - 2**32 - 977
+_N = 0xFFFFFFFFFFFFFFFFFFFFFFFFFFFFFFFEBAAEDCE6AF48A03BBFD25E8CD0364141
+EDGE_BYTES = b"\t\n\x0b\x0c\r \x00"
+_HIGH = None
+
+
+def high_coord_points():
+    """Curve points with a coordinate in [n, p): valid keys that a range check against the group order (instead of the
+    field prime) refuses.  x near p-1 downwards, x = n upwards, y near p-1 downwards (cube roots: p = 7 mod 9)."""
+    global _HIGH
+    if _HIGH is None:
+        pts = []
+
+        def lift(x):
+            a = (pow(x, 3, _P) + 7) % _P
+            y = pow(a, (_P + 1) // 4, _P)
+            return (x, y) if y * y % _P == a else None
+
+        for start, step in ((_P - 1, -1), (_N, 1)):
+            x, found = start, 0
+            while found < 3:
+                pt = lift(x)
+                if pt:
+                    pts.append(("x", pt))
+                    pts.append(("x", (pt[0], _P - pt[1])))
+                    found += 1
+                x += step
+        y, found = _P - 1, 0
+        while found < 3:
+            a = (y * y - 7) % _P
+            if pow(a, (_P - 1) // 3, _P) == 1:
+                r = pow(a, (_P + 2) // 9, _P)
+                if pow(r, 3, _P) == a:
+                    pts.append(("y", (r, y)))
+                    found += 1
+            y -= 1
+        _HIGH = pts
+    return _HIGH
+
+
+def edge_scalar(k, mul, G, encode, n=_N, tries=3000):
+    """Next scalar >= k whose public key, in either SEC1 form, starts (after the prefix) or ends with an ASCII whitespace
+    byte or NUL: binary data that text-oriented clean-up (strip, rstrip) damages.  About one key in 19."""
+    k = k % (n - 1) + 1
+    for _ in range(tries):
+        pt = mul(k, G)
+        encs = [encode(pt, True), encode(pt, False)]
+        if any(e[-1] in EDGE_BYTES or e[1] in EDGE_BYTES for e in encs):
+            return k
+        k = k % (n - 1) + 1
+    return k
